@@ -33,6 +33,22 @@ def _invoke(args, cwd):
         os.chdir(old)
 
 
+_TPL = {}
+
+
+def _template_sections(preset):
+    if preset not in _TPL:
+        import yaml
+        d = Path(tempfile.mkdtemp(prefix="c20tpl-"))
+        try:
+            _invoke(["init-config", "--non-interactive", "--preset", preset], d)
+            doc = yaml.safe_load((d / ".thailint.yaml").read_text()) or {}
+        finally:
+            shutil.rmtree(d, True)
+        _TPL[preset] = [k for k, v in doc.items() if isinstance(v, dict)]
+    return _TPL[preset]
+
+
 def h_init_merge(ctx):
     import yaml
     from src.core.config_parser import parse_config_file
@@ -115,9 +131,10 @@ def h_init_merge(ctx):
             names = [k for k in doc if k.replace("-", "_") == norm]
             ctx.require("section-not-duplicated", len(names) == 1, section=s, names=names)
         if not refused1:
-            from src.cli import config_merge
             have = {str(k).replace("-", "_") for k in doc}
-            absent = [x for x in config_merge.LINTER_SECTIONS if x.replace("-", "_") not in have]
+            # every linter section of the file init-config generates from scratch (its dict-valued top-level keys)
+            absent = [x for x in _template_sections(preset) if x.replace("-", "_") not in have
+                      and not (x == "print-statements" and "improper_logging" in have) and not (x == "pipeline" and "collection_pipeline" in have)]
             ctx.require("missing-sections-added", not absent, absent=absent)
         ctx.cover("refused" if refused1 else "merged" if present else "empty-existing")
     finally:
